@@ -136,13 +136,38 @@ class Loaded(object):
         return self.t.cpu.disassemble.maxlen
 
     def window(self, a, names, maxlen=None):
-        """first item of mmap.read(a, maxlen), canonical: ["raw", hex] | ["ex", …] | ["bot", n]."""
-        r = self.mmap.read(a, maxlen or self.maxlen())
+        """what task.read_instruction(a) hands to the disassembler, observed by replacing the cpu module's
+        `disassemble` with a recorder for the duration of the call: ["raw", hex]; when the disassembler is
+        not called: the returned stub ["ex", …], or the first item of mmap.read(a, maxlen) (["bot", n] / ["ex", …])."""
+        cpu = self.t.cpu
+        orig = cpu.disassemble
+        seen = []
+        ml = maxlen or orig.maxlen
+
+        class Rec(object):
+            def __call__(self, data, **kargs):
+                seen.append(bytes(data))
+                return None
+        rec = Rec()
+        rec.maxlen = ml
+        cpu.disassemble = rec
+        try:
+            try:
+                res = self.t.read_instruction(a)
+            except MemoryError:
+                return ["MemoryError"]
+            except Exception as e:
+                return ["raise", type(e).__name__]
+        finally:
+            cpu.disassemble = orig
+        if seen:
+            return ["raw", seen[0].hex()]
+        if res is not None:
+            return ["ex", ext_desc(res, names)]
+        r = self.mmap.read(a, ml)
         if not r:
             return None
         it = r[0]
-        if isinstance(it, (bytes, bytearray)):
-            return ["raw", bytes(it).hex()]
         if is_bottom(it):
             return ["bot", it.size // 8]
         return ["ex", ext_desc(it, names)]
